@@ -37,7 +37,7 @@ COMPONENTS = {
     'stub': common.COMPONENTS['stub'],
 }
 ASSUMPTIONS = ['FIFO ready queue', 'hooks are probed in the generated subclasses before delegating to super()']
-EXPECTED_COUNTERS = ['probe:step', 'probe:after_await', 'probe:callback', 'probe:hook', 'probe:after_nested', 'probe:launched',
+EXPECTED_COUNTERS = ['probe:callback_on_parent', 'probe:step', 'probe:after_await', 'probe:callback', 'probe:hook', 'probe:after_nested', 'probe:launched',
                      'sample:between_handles', 'sample:inside_nested', 'interleaved_runs', 'nested_depth2']
 HOOK_OUTPUT = ('on_output_emitting', 'on_output_emitted')
 
@@ -52,6 +52,14 @@ def gen_program(rng, depth, children_pool):
            'selfacts': ['pause'], 'p_selfact': 0.15}
     program = programs.gen_process_program(rng, cfg)
     program['children'] = []
+    if depth > 0:
+        # children sometimes schedule a callback on the process that started them
+        serial = 0
+        for step in program['steps']:
+            for group in step['effects']:
+                if rng.random() < 0.3:
+                    serial += 1
+                    group.append({'e': 'callsoon_parent', 'id': f'{depth}.{serial}'})
     if depth < 2:
         for step in program['steps']:
             for group in step['effects']:
@@ -184,6 +192,8 @@ def run(case):
                                                                    f'Process.current() is not that process')
             elif tag == 'callback':
                 result.counters['probe:callback'] += 1
+                if str(event[2]).startswith('from-child'):
+                    result.counters['probe:callback_on_parent'] += 1
                 if not event[3]:
                     result.violate('current_in_callback', 'call_soon', f'in callback {event[2]} of {event[1]} '
                                                                        f'Process.current() is not that process')
